@@ -152,6 +152,7 @@ class Report:
         self.stats = {}
         self.t0 = time.time()
         self.info = []       # informational (never a violation)
+        self.soft = []       # anchor shortfalls, fatal unless a violation explains them
 
     # -- declaring -----------------------------------------------------
     def rule(self, rid, text, floor=1):
@@ -191,6 +192,15 @@ class Report:
         return cond
 
 
+    def require_soft(self, cond, msg):
+        """Anchor count requirement evaluated at the end: a shortfall is an
+        analysis error unless the run reports a violation (the deletion that
+        caused the shortfall is then reported by the rule that misses it)."""
+        if not cond:
+            self.soft.append(msg)
+        return cond
+
+
 # ---------------------------------------------------------------------------
 # known findings
 
@@ -225,15 +235,6 @@ def finish(report, seed=0, level='other', extra_cov=None, quiet=False):
     counts = {}
     for o in r.obls:
         counts[o.rule] = counts.get(o.rule, 0) + 1
-    any_violation = any(not o.ok for o in r.obls)
-    for rid, floor in r.floors.items():
-        # a rule that already reports a violation explains its own shortfall
-        if any_violation and any((not o.ok) and o.rule == rid for o in r.obls):
-            continue
-        if counts.get(rid, 0) < floor:
-            raise AnalysisError(
-                'rule %s matched %d site(s), floor is %d (anchor vanished?)'
-                % (rid, counts.get(rid, 0), floor))
     known = load_known()
     violated = [o for o in r.obls if not o.ok]
     new, listed = [], []
@@ -244,6 +245,19 @@ def finish(report, seed=0, level='other', extra_cov=None, quiet=False):
                 hit = e
                 break
         (listed if hit else new).append((o, hit))
+    # a shortfall is fatal unless the run reports a new violation: the
+    # deletion that made an anchor vanish is then named by the rule that
+    # misses it (exit 1 carries more information than exit 2)
+    if not new:
+        for rid, floor in r.floors.items():
+            if any((not o.ok) and o.rule == rid for o in r.obls):
+                continue
+            if counts.get(rid, 0) < floor:
+                raise AnalysisError(
+                    'rule %s matched %d site(s), floor is %d (anchor vanished?)'
+                    % (rid, counts.get(rid, 0), floor))
+        if r.soft:
+            raise AnalysisError(r.soft[0])
     outdir = os.path.join(VERIF, 'out')
     os.makedirs(outdir, exist_ok=True)
     lines = []
